@@ -20,7 +20,7 @@ from sim.runner import Outcome
 
 ID = "C02"
 LEVEL = "exploration"
-RUN_WALL_S = 120
+RUN_WALL_S = 180
 TIERS = {
     "quick": {"cases": 60_000, "episode": 250, "selftest": 96, "wall_cap_s": 600, "shrink_s": 45},
     "thorough": {"cases": 3_000_000, "episode": 500, "selftest": 1024, "wall_cap_s": 3 * 3600, "shrink_s": 120},
